@@ -141,3 +141,38 @@ Lemma rh_overlap_resolves :
   | None => false
   end = true.
 Proof. vm_compute. reflexivity. Qed.
+
+(** the KNOWN FINDING in the repaired model: the user cancels Run's context BEFORE Close signals;
+    handleClose leaves through ctx.Done with routersCloseCh still open and never closes the
+    subscriber; with a subscriber that ignores its context Close can only time out although no
+    handler runs and nothing is blocked *)
+Definition early_cancel_schedule : list label :=
+  [LEnvCancel; LHcCtx 0; LHc 0; LHc 0; LCall 0; LClose 0; LClose 0; LClose 0; LClose 0; LRun; LRun].
+Lemma early_cancel_witness :
+  match replay (init 1 ignore_ctx true true true) early_cancel_schedule with
+  | Some s => match cp s 0 with CWait => true | _ => false end && early_cancel s &&
+              match hc s 0 with HCDone => true | _ => false end && Nat.eqb (sub_closes s 0) 0 &&
+              negb (handler_running_b s) && match sys_enabled s 1 with [] => true | _ => false end
+  | None => false
+  end = true.
+Proof. vm_compute. reflexivity. Qed.
+(** ... and the acceptor reports exactly this at rest: codes 7 and 8 *)
+Lemma early_cancel_monitor_rejects :
+  map snd (mon_run 1 (fun _ => true)
+             (trace (init 1 ignore_ctx true true true) (early_cancel_schedule ++ [LTimeout 0; LClose 0; LClose 0]) ++ [AQuiescent]))
+  = [7; 8].
+Proof. vm_compute. reflexivity. Qed.
+
+(** a handler that fails (error return or recovered panic): nothing is published, the message is
+    settled (Nack), the deferred Done runs, Close waits for it and returns nil; accepted *)
+Definition failing_handler_schedule : list label :=
+  [LEmit 0; LDeliver 0; LLoop 0; LLoop 0; LMsg 0; LCall 0; LClose 0; LClose 0; LClose 0; LClose 0; LRun; LRun;
+   LHcClosing 0; LHc 0; LChanClose 0; LPump 0; LPump 0; LSubCloseRet 0; LHc 0; LHc 0; LLoop 0; LLoop 0; LLoop 0; LW1; LW2;
+   LFail 0; LMsg 0; LMsg 0; LW2; LW2; LWaitDone 0; LClose 0; LClose 0; LRun].
+Lemma failing_handler_example :
+  match replay (init 1 ignore_ctx true true true) failing_handler_schedule with
+  | Some s => returned s 0 RNil && quiescent_b s && negb (panicked s) &&
+              match mon_run 1 (fun _ => true) (trace (init 1 ignore_ctx true true true) failing_handler_schedule ++ [AQuiescent]) with [] => true | _ => false end
+  | None => false
+  end = true.
+Proof. vm_compute. reflexivity. Qed.
